@@ -75,4 +75,31 @@ PROPS = {
         "floors": {"any": {"full_state_verifications": 500}},
         "assumptions": ["a cursor is always created after the mutation it is expected to reflect"],
     },
+    "C08": {
+        "level": "exploration",
+        "rule": "cases = trees (empty, one leaf, two-level, three-level, with nested-bucket entries; committed through a read-only and a write "
+                "transaction, and mid-transaction after emptying the first / middle / last / two adjacent leaves, deleting every second entry, "
+                "everything, inserting between all entries, mixed) plus seeded random trees. On each tree the probe set = every key, key+0x00, "
+                "a string just below each key, the empty key, a key above the maximum; ALL seeks over it and ALL ordered pairs x "
+                "{Included,Excluded,Unbounded}^2 through the (Bound,Bound) impl plus a..b, a..=b, a.., ..b, ..=b, .. are compared with BTreeMap "
+                "filter semantics; next() is called 3 more times after every exhaustion; kv_pairs()/buckets() on cursors and on ranges. "
+                "exhaustive=true only if every tree got the full pair grid (large trees use a probe stride in the quick tier). "
+                "non-trivial = tree on which more than 10 seeks/ranges were compared.",
+        "run": generic(thorough_profiles=("verif-rel",)),
+        "floors": {"any": {"seeks": 200, "range_scans": 5000, "next_calls_after_exhaustion": 1000}},
+        "assumptions": ["iteration after seek(absent key) may start at the predecessor or the successor (or at the end if there is no successor)"],
+    },
+    "C03": {
+        "level": "exploration",
+        "rule": "cases = single-threaded step sequences on a pre-sized file (no growth while a reader is open): open reader (<= k, k in 1..4), "
+                "close a random reader, writer commit / rollback of a generated update/delete/bucket-delete transaction. After EVERY step every open "
+                "reader is re-read in full (recursive cursor walk, point gets, seeks, filters) against the model state of the moment it began; before "
+                "every writer the next writer's private free set (probe hook) must be disjoint from the pages reachable from the newest header and "
+                "from every open reader's snapshot; after every writer the bytes of every pinned snapshot are re-hashed. "
+                "distinct = distinct step sequence; non-trivial = a sequence in which pages were rewritten in place while a reader was open.",
+        "run": generic(thorough_profiles=("verif-rel",)),
+        "floors": {"any": {"full_reader_verifications": 500, "free_set_invariant_evaluations": 200,
+                           "pages_rewritten_in_place_while_a_reader_was_open": 50, "max_readers": 3}},
+        "assumptions": ["single thread: histories that would need a file growth with an open reader are skipped (documented self-deadlock) and counted as inconclusive"],
+    },
 }
